@@ -126,6 +126,16 @@ impl Driver {
                 return Err(self.result().await);
             };
 
+            #[cfg(wtransport_verif)]
+            crate::verif::log::record(
+                self.quic_connection.stable_id(),
+                crate::verif::log::Ev::Recv(
+                    crate::verif::log::Dir::Uni,
+                    stream.id().into_u64(),
+                    stream.session_id() == session_id,
+                ),
+            );
+
             if stream.session_id() == session_id {
                 return Ok(stream);
             }
@@ -150,6 +160,16 @@ impl Driver {
             let Some(stream) = lock.recv().await else {
                 return Err(self.result().await);
             };
+
+            #[cfg(wtransport_verif)]
+            crate::verif::log::record(
+                self.quic_connection.stable_id(),
+                crate::verif::log::Ev::Recv(
+                    crate::verif::log::Dir::Bi,
+                    stream.id().into_u64(),
+                    stream.session_id() == session_id,
+                ),
+            );
 
             if stream.session_id() == session_id {
                 return Ok(stream);
@@ -318,6 +338,16 @@ mod worker {
                 DriverError::NotConnected => (),
             }
 
+            #[cfg(wtransport_verif)]
+            crate::verif::log::record(
+                self.quic_connection.stable_id(),
+                crate::verif::log::Ev::WorkerExit(match &error {
+                    DriverError::NotConnected => 0,
+                    DriverError::ApplicationClosed(_) => 1,
+                    DriverError::Proto(_) => 2,
+                }),
+            );
+
             self.driver_result.set(error);
         }
 
@@ -421,6 +451,18 @@ mod worker {
             let stream_id = stream_quic.id();
             debug!("New incoming uni stream ({})", stream_id);
 
+            #[cfg(wtransport_verif)]
+            let verif_conn = quic_connection.stable_id();
+
+            #[cfg(wtransport_verif)]
+            crate::verif::log::record(
+                verif_conn,
+                crate::verif::log::Ev::WorkerAccept(
+                    crate::verif::log::Dir::Uni,
+                    stream_id.into_u64(),
+                ),
+            );
+
             // Queue slots are awaited by the stream's own task, and only once its type is known:
             // a peer stalling a stream before completing its preamble must not hold any slot,
             // otherwise it would prevent all other streams from being accepted.
@@ -434,15 +476,45 @@ mod worker {
                         Err(ProtoReadError::H3(ErrorCode::StreamCreation)) => {
                             // Unknown stream type: reading has been aborted for that stream only,
                             // it MUST NOT be considered a connection error of any kind.
+                            #[cfg(wtransport_verif)]
+                            crate::verif::log::record(
+                                verif_conn,
+                                crate::verif::log::Ev::Preamble(
+                                    crate::verif::log::Dir::Uni,
+                                    stream_id.into_u64(),
+                                    crate::verif::log::Class::Gone,
+                                ),
+                            );
+
                             return;
                         }
                         Err(ProtoReadError::H3(error_code)) => {
+                            #[cfg(wtransport_verif)]
+                            crate::verif::log::record(
+                                verif_conn,
+                                crate::verif::log::Ev::Preamble(
+                                    crate::verif::log::Dir::Uni,
+                                    stream_id.into_u64(),
+                                    crate::verif::log::Class::Gone,
+                                ),
+                            );
+
                             let _ = ready_uni_h3_streams
                                 .send(Err(DriverError::Proto(error_code)))
                                 .await;
                             return;
                         }
                         Err(ProtoReadError::IO(_)) => {
+                            #[cfg(wtransport_verif)]
+                            crate::verif::log::record(
+                                verif_conn,
+                                crate::verif::log::Ev::Preamble(
+                                    crate::verif::log::Dir::Uni,
+                                    stream_id.into_u64(),
+                                    crate::verif::log::Class::Gone,
+                                ),
+                            );
+
                             return;
                         }
                     };
@@ -452,8 +524,51 @@ mod worker {
 
                     if matches!(stream_kind, StreamKind::WebTransport) {
                         let stream_wt = stream_h3.upgrade();
+
+                        #[cfg(wtransport_verif)]
+                        {
+                            let class =
+                                crate::verif::log::Class::Wt(stream_wt.session_id().into_u64());
+                            crate::verif::log::record(
+                                verif_conn,
+                                crate::verif::log::Ev::Preamble(
+                                    crate::verif::log::Dir::Uni,
+                                    stream_id.into_u64(),
+                                    class,
+                                ),
+                            );
+                            crate::verif::log::record(
+                                verif_conn,
+                                crate::verif::log::Ev::SendBegin(
+                                    crate::verif::log::Dir::Uni,
+                                    stream_id.into_u64(),
+                                ),
+                            );
+                        }
+
                         let _ = ready_uni_wt_streams.send(stream_wt).await;
+
+                        #[cfg(wtransport_verif)]
+                        if !ready_uni_wt_streams.is_closed() {
+                            crate::verif::log::record(
+                                verif_conn,
+                                crate::verif::log::Ev::SendEnd(
+                                    crate::verif::log::Dir::Uni,
+                                    stream_id.into_u64(),
+                                ),
+                            );
+                        }
                     } else {
+                        #[cfg(wtransport_verif)]
+                        crate::verif::log::record(
+                            verif_conn,
+                            crate::verif::log::Ev::Preamble(
+                                crate::verif::log::Dir::Uni,
+                                stream_id.into_u64(),
+                                crate::verif::log::Class::H3,
+                            ),
+                        );
+
                         let _ = ready_uni_h3_streams.send(Ok(stream_h3)).await;
                     }
                 }
@@ -477,6 +592,18 @@ mod worker {
             let stream_id = stream_quic.id();
             debug!("New incoming bi stream ({})", stream_id);
 
+            #[cfg(wtransport_verif)]
+            let verif_conn = quic_connection.stable_id();
+
+            #[cfg(wtransport_verif)]
+            crate::verif::log::record(
+                verif_conn,
+                crate::verif::log::Ev::WorkerAccept(
+                    crate::verif::log::Dir::Bi,
+                    stream_id.into_u64(),
+                ),
+            );
+
             // Queue slots are awaited by the stream's own task, and only once its first frame is
             // known: a peer stalling a stream before completing its preamble must not hold any
             // slot, otherwise it would prevent all other streams from being accepted.
@@ -496,12 +623,32 @@ mod worker {
                                 }
                             }
                             Err(ProtoReadError::H3(error_code)) => {
+                                #[cfg(wtransport_verif)]
+                                crate::verif::log::record(
+                                    verif_conn,
+                                    crate::verif::log::Ev::Preamble(
+                                        crate::verif::log::Dir::Bi,
+                                        stream_id.into_u64(),
+                                        crate::verif::log::Class::Gone,
+                                    ),
+                                );
+
                                 let _ = ready_bi_h3_streams
                                     .send(Err(DriverError::Proto(error_code)))
                                     .await;
                                 return;
                             }
                             Err(ProtoReadError::IO(_)) => {
+                                #[cfg(wtransport_verif)]
+                                crate::verif::log::record(
+                                    verif_conn,
+                                    crate::verif::log::Ev::Preamble(
+                                        crate::verif::log::Dir::Bi,
+                                        stream_id.into_u64(),
+                                        crate::verif::log::Class::Gone,
+                                    ),
+                                );
+
                                 return;
                             }
                         }
@@ -512,9 +659,52 @@ mod worker {
                     match frame.session_id() {
                         Some(session_id) => {
                             let stream_wt = stream_h3.upgrade(session_id);
+
+                            #[cfg(wtransport_verif)]
+                            {
+                                let class =
+                                    crate::verif::log::Class::Wt(stream_wt.session_id().into_u64());
+                                crate::verif::log::record(
+                                    verif_conn,
+                                    crate::verif::log::Ev::Preamble(
+                                        crate::verif::log::Dir::Bi,
+                                        stream_id.into_u64(),
+                                        class,
+                                    ),
+                                );
+                                crate::verif::log::record(
+                                    verif_conn,
+                                    crate::verif::log::Ev::SendBegin(
+                                        crate::verif::log::Dir::Bi,
+                                        stream_id.into_u64(),
+                                    ),
+                                );
+                            }
+
                             let _ = ready_bi_wt_streams.send(stream_wt).await;
+
+                            #[cfg(wtransport_verif)]
+                            if !ready_bi_wt_streams.is_closed() {
+                                crate::verif::log::record(
+                                    verif_conn,
+                                    crate::verif::log::Ev::SendEnd(
+                                        crate::verif::log::Dir::Bi,
+                                        stream_id.into_u64(),
+                                    ),
+                                );
+                            }
                         }
                         None => {
+                            #[cfg(wtransport_verif)]
+                            crate::verif::log::record(
+                                verif_conn,
+                                crate::verif::log::Ev::Preamble(
+                                    crate::verif::log::Dir::Bi,
+                                    stream_id.into_u64(),
+                                    crate::verif::log::Class::H3,
+                                ),
+                            );
+
                             let _ = ready_bi_h3_streams.send(Ok((stream_h3, frame))).await;
                         }
                     }
